@@ -271,6 +271,11 @@ pub fn mk_geninit(e: &Value) -> srat::GenericInitiator {
     let a = get(e, "a");
     let h = get(a, "handle");
     let handle = match str_of(get(h, "t")) {
+        // the variants are public: a caller may also write them out instead of going through new_acpi / new_pci
+        "acpi" if has(h, "literal") => srat::Handle::Acpi { hid: arr_n(get(h, "hid")), uid: arr_n(get(h, "uid")) },
+        "pci" if has(h, "literal") && u8_of(get(h, "dev")) < 32 && u8_of(get(h, "fn")) < 8 => {
+            srat::Handle::Pci { segment: u16_of(get(h, "seg")), bus: u8_of(get(h, "bus")), device: u8_of(get(h, "dev")), function: u8_of(get(h, "fn")) }
+        }
         "acpi" => srat::Handle::new_acpi(arr_n(get(h, "hid")), arr_n(get(h, "uid"))),
         "pci" => srat::Handle::new_pci(u16_of(get(h, "seg")), u8_of(get(h, "bus")), u8_of(get(h, "dev")), u8_of(get(h, "fn"))),
         x => panic!("handle {x}"),
